@@ -17,6 +17,7 @@ for d, _, files in os.walk(root):
 # files injected into existing packages (export shims), overlay only
 INJECT = {
     '_inject/genlsp_zzverif.go': '/repo/internal/bcl/genlsp/zz_verif_export.go',
+    '_inject/source_zzverif.go': '/repo/internal/source/zz_verif_export.go',
 }
 for src, dst in INJECT.items():
     if os.path.exists(os.path.join(root, src)):
